@@ -6,6 +6,9 @@ CLASSES = {'fluid_stress', 'fluid_strain_rate', 'fluid_not_linear', 'fluid_one_a
 
 def run(tier):
     chk = C.Check('C13', tier)
+    nob = C.run_tlaps('Fluid_proofs', deps=('Fluid',))
+    chk.layer('S.proofs', tlaps_obligations_proved=nob, note='Fluid_proofs.tla: in the specification the viscous stress map is linear in the strain rate (all six slots) and '
+              'tr(stress) = (2 mu + 3 mub) tr(D), for ALL integer viscosities, coefficients and components (tlapm; polynomial lemmas by SMT lifted through slot lemmas)')
     out = M.run(['exact', 'real'], 2000 if tier == 'quick' else 60000)
     if out['result']:
         out['result']['bad'] = [b for b in out['result']['bad'] if not (b['cls'] in ('model_stub', 'model_inverse_composition') and 'elastic' in b['key'])]
